@@ -102,7 +102,26 @@ def app_placements(rp, seed, tier):
     return app_sim.run_all(rp, tier, seed)
 
 
-CHECKS = {'app-placements': app_placements, 'worker-histories': worker_histories, 'worker-dispatch': worker_dispatch, 'node-files': node_files, 'pilot-sizing': pilot_sizing, 'slot-formats': slot_formats, 'wait-calls': wait_calls, 'sched-histories': sched_histories, 'bf-histories': bf_histories, 'lm-placements': lm_placements,
+def executor_ops(rp, seed, tier):
+    """the native operation sequences of the executor replay builders, run on every check:
+    watcher / cancel interleavings at operation granularity, launch with pending cancel,
+    registration before launch, an error after the process exists"""
+    from harness import builders
+    viol, n = [], 0
+    for key in ('agent/executing/popen.py:Popen.work', 'agent/executing/popen.py:Popen._launch_task',
+                'agent/executing/base.py:AgentExecutingComponent.is_canceled'):
+        r = builders.BUILDERS[key](dict(function=key), rp)
+        import re
+        m = re.search(r'(\d+)', r.get('detail') or '')
+        n += int(m.group(1)) if m and not r.get('confirmed') else 1
+        if r.get('confirmed'):
+            viol.append(dict(id=key.split(':')[-1], detail=r['detail'], input=r.get('input')))
+    return dict(cases=n, violations=viol,
+                bound='%d native executor scenarios: 111 watcher / cancel operation sequences on two tasks, registration before launch, '
+                      '6 launch scenarios (pending cancel x exit code), an error after the process exists, intake cancel with and without a process' % n)
+
+
+CHECKS = {'executor-ops': executor_ops, 'app-placements': app_placements, 'worker-histories': worker_histories, 'worker-dispatch': worker_dispatch, 'node-files': node_files, 'pilot-sizing': pilot_sizing, 'slot-formats': slot_formats, 'wait-calls': wait_calls, 'sched-histories': sched_histories, 'bf-histories': bf_histories, 'lm-placements': lm_placements,
           'staging-e2e': staging_e2e, 'task-scripts': task_scripts}
 
 
